@@ -124,10 +124,15 @@ func run(c *core.Ctx) {
 	suggest := map[spec]*[3]int64{}
 	var inexpressible []string
 	evaluable := false
+	unknown := 0
 	for sp, names := range classes {
-		var any bool
-		suggest[sp], any = it.search(sp)
+		var any, complete bool
+		suggest[sp], any, complete = it.search(sp)
 		evaluable = evaluable || any
+		if suggest[sp] == nil && any && !complete {
+			unknown++ // some readings could not be evaluated: "no reading fits" is not established
+			continue
+		}
 		if suggest[sp] == nil && any {
 			sort.Strings(names)
 			inexpressible = append(inexpressible, fmt.Sprintf("%s %v", sp, names))
@@ -138,8 +143,12 @@ func run(c *core.Ctx) {
 		c.Undecidedf("R1.convention", "getMatchKeys/expressible", gmk.Decl.Pos(), "the interpreter's first/last/stride/tail expressions cannot be evaluated for concrete table entries")
 		return
 	}
-	c.Check("R1.convention", "getMatchKeys/expressible", gmk.Decl.Pos(), len(inexpressible) == 0,
-		"under the interpreter's reading no (firstkey,lastkey,keystep) triple in 1..3 x -3..3 x 1..3 reproduces these Redis key specs, so the interpreter itself (not the table) mis-handles the commands: "+strings.Join(inexpressible, "; "))
+	if len(inexpressible) == 0 && unknown > 0 {
+		c.Undecidedf("R1.convention", "getMatchKeys/expressible", gmk.Decl.Pos(), "for %d classes of key specs no table triple was found to fit, but some triples could not be evaluated under the interpreter's reading", unknown)
+	} else {
+		c.Check("R1.convention", "getMatchKeys/expressible", gmk.Decl.Pos(), len(inexpressible) == 0,
+			"under the interpreter's reading no (firstkey,lastkey,keystep) triple in 1..3 x -3..3 x 1..3 reproduces these Redis key specs, so the interpreter itself (not the table) mis-handles the commands: "+strings.Join(inexpressible, "; "))
+	}
 
 	// ---- R2 entries, R3 prefix
 	failed := 0
@@ -366,6 +375,13 @@ func compare(cv convention, sp spec, cmd string) (bool, string) {
 			last--
 		}
 		got := progression(cv.F, last, cv.S)
+		if cv.got != nil {
+			run, has := cv.got(n)
+			if !has {
+				continue // not executed for this many arguments: nothing is concluded from it
+			}
+			got = run
+		}
 		argv := make([]string, n)
 		for i := range argv {
 			argv[i] = fmt.Sprintf("a%d", i)
@@ -409,7 +425,10 @@ func compare(cv convention, sp spec, cmd string) (bool, string) {
 		case tail < end:
 			return false, fmt.Sprintf("`%s` (%d arguments): the non-key tail is copied from index %d although the last key group ends at %d: arguments [%d,%d) are forwarded even when their key is rejected, and twice when it passes", line, n, tail, end, tail, end)
 		}
-		if len(got) > 1 && cv.C != cv.S {
+		if len(got) > 1 && cv.got != nil && got[1]-got[0] != cv.C {
+			return false, fmt.Sprintf("`%s`: keys are %d apart but %d arguments are copied per key", line, got[1]-got[0], cv.C)
+		}
+		if len(got) > 1 && cv.got == nil && cv.C != cv.S {
 			return false, fmt.Sprintf("`%s`: keys are %d apart but %d arguments are copied per key", line, cv.S, cv.C)
 		}
 	}
@@ -417,7 +436,8 @@ func compare(cv convention, sp spec, cmd string) (bool, string) {
 }
 
 // search looks for a table triple that makes the interpreter handle sp.
-func (it *interp) search(sp spec) (found *[3]int64, evaluable bool) {
+func (it *interp) search(sp spec) (found *[3]int64, evaluable, complete bool) {
+	complete = true
 	order := func(pref int64, lo, hi int64) []int64 {
 		out := []int64{pref}
 		for v := lo; v <= hi; v++ {
@@ -432,14 +452,15 @@ func (it *interp) search(sp spec) (found *[3]int64, evaluable bool) {
 			for _, l := range order(sp.last, -3, 3) {
 				cv, why := it.conventionFor(f, l, s)
 				if why != "" {
+					complete = false // this reading could not be evaluated: it may be the one that fits
 					continue
 				}
 				evaluable = true
 				if ok, _ := compare(cv, sp, ""); ok {
-					return &[3]int64{f, l, s}, true
+					return &[3]int64{f, l, s}, true, true
 				}
 			}
 		}
 	}
-	return nil, evaluable
+	return nil, evaluable, complete
 }
